@@ -48,6 +48,7 @@ LEVEL_TEXT = ("Generated histories over a mixed writer pool compared with a "
               "exploration.")
 
 KINDS = ["recorder", "path", "bytesio", "stringio", "textfile", "path", "console", "log"]
+LEFTOVER = b"; leftover of an earlier, longer program\n" * 40
 CFG_OUTPUTS = [None, None, "cfg_path", "cfg_bytesio", "cfg_stringio"]
 
 
@@ -109,6 +110,12 @@ class Pool:
                 self.readers.append(lambda w=w: bytes(w.data))
             elif k == "path":
                 path = os.path.join(tmp, f"out{i}", "file.gcode")
+                if i == 1:
+                    # a longer file left over from an earlier run: a path-based
+                    # output starts empty whatever was there before
+                    os.makedirs(os.path.dirname(path))
+                    with open(path, "wb") as fh0:
+                        fh0.write(LEFTOVER)
                 w = spy(i, FileWriter)(path)
                 self.readers.append(lambda path=path: open(path, "rb").read()
                                     if os.path.exists(path) else b"")
@@ -215,6 +222,7 @@ def run_case(case, cl=None):
         g.add_writer(ref)
         registered = list(range(len(KINDS), len(kinds)))     # indices, in order
         expected = [b""] * len(kinds)
+        expected[1] = LEFTOVER             # until writer #1 opens its file (truncating)
         is_open = [False] * len(kinds)     # path writers: file currently open
         log_expected = []
         emits = 0
